@@ -701,7 +701,23 @@ func init() {
 		registerReplay("C05/path-sessions", func(c pathCase) *fail { c.Life = true; return runPathCase(c, nil) })
 		registerReplay("C05/cuts", func(c cutCase) *fail { return runCutCase(c, nil) })
 		registerReplay("C05/clunk-race", runRaceCase)
+		registerReplay("C05/faults", func(c faultCase) *fail {
+			if f := runFaultCase(c, nil); f != nil && (lifeSig(f.Sig) || strings.HasPrefix(f.Sig, "harness-")) {
+				return f
+			}
+			return nil
+		})
 	})
+}
+
+// lifeSig: the verdicts of the session engine that concern the File lifecycle.
+func lifeSig(sig string) bool {
+	for _, p := range []string{"use-after-close", "double-close", "close-during-call", "closed-while-referenced", "not-closed-at-teardown", "leaked-handle", "handle-did-not-return", "goroutine-left-behind"} {
+		if strings.HasPrefix(sig, p) {
+			return true
+		}
+	}
+	return false
 }
 
 func TestC05(t *testing.T) {
@@ -811,6 +827,87 @@ func TestC05(t *testing.T) {
 	})
 
 	// (d) unbinding a fid while an operation on it is inside the backend:
+	// (g) backend failures: an error or a panic at every backend call of a session
+	// in turn (the engine of C15), judged here by the File lifecycle alone - the
+	// Close that fails included
+	lifeVerdict := func(f *fail) *fail {
+		if f == nil || strings.HasPrefix(f.Sig, "harness-") {
+			return f
+		}
+		if lifeSig(f.Sig) {
+			return f
+		}
+		h.Count("faults:verdicts-left-to-C15", 1)
+		return nil
+	}
+	errPool := []errSpec{{"linux", 5}, {"syscall", 28}, {"patherror", 2}, {"joined", 39}}
+	var struckF *fail
+	var struckC faultCase
+	faultsOf := func(c faultCase) *fail {
+		if c.FaultAt != 0 {
+			return lifeVerdict(runFaultCase(c, nil))
+		}
+		clean := c
+		st := &faultStats{}
+		if f := lifeVerdict(runFaultCase(clean, st)); f != nil {
+			return f
+		}
+		for k := 1; k <= st.armedCalls; k++ {
+			for _, panicKind := range []bool{false, true} {
+				fc := c
+				fc.Errs = nil
+				fc.FaultAt, fc.Panic = k, panicKind
+				if !panicKind {
+					e := errPool[k%len(errPool)]
+					fc.Err = &e
+				}
+				fst := &faultStats{}
+				f := lifeVerdict(runFaultCase(fc, fst))
+				cls := "fault:error"
+				if panicKind {
+					cls = "fault:panic"
+				}
+				h.Case(faultHash(fc), fst.struck, cls)
+				if fst.struck {
+					h.Count("faults:struck-in:"+fst.op, 1)
+				}
+				if fst.struck && h.WantSample("faults") {
+					h.Sample("faults", fc)
+				}
+				if f != nil && !strings.HasPrefix(f.Sig, "harness-") && !h.Known(f.Sig) {
+					struckF, struckC = f, fc
+					return f
+				}
+				if f != nil && strings.HasPrefix(f.Sig, "harness-") {
+					return f
+				}
+			}
+		}
+		return nil
+	}
+	if env.Shard == 0 {
+		for _, c := range c15Targeted() {
+			if f := faultsOf(c); f != nil {
+				if strings.HasPrefix(f.Sig, "harness-") {
+					t.Errorf("HARNESS-ERROR %s", f.Msg)
+					continue
+				}
+				h.report("faults", struckF, struckC)
+				return
+			}
+		}
+	}
+	rapidCases(h, "faults", env.PerShard(env.Pick(800, 24000)), genFaultSession, func(c faultCase) *fail {
+		f := faultsOf(c)
+		if f != nil {
+			return &fail{Sig: f.Sig, Msg: f.Msg}
+		}
+		return nil
+	})
+	if struckF != nil && !strings.HasPrefix(struckF.Sig, "harness-") {
+		h.Violation("faults", struckF.Sig, struckF.Msg, struckC)
+	}
+
 	// every (operation, way of unbinding) pair, both backends
 	if env.Shard == 0 {
 		for _, op := range raceOps {
